@@ -450,14 +450,15 @@ var c10PropSchemas = map[int]*openapi3.SchemaRef{
 }
 
 type c10Flat struct {
-	Type       *int     `json:"type,omitempty"`
-	Format     int      `json:"format"`
-	Props      []J      `json:"props"`
-	Required   []string `json:"required"`
-	AddlHas    *bool    `json:"addlHas,omitempty"`
-	AddlSchema *int     `json:"addlSchema,omitempty"`
-	Flags      int      `json:"flags"`
-	HasDefault bool     `json:"hasDefault"`
+	Type       *int      `json:"type,omitempty"`
+	Format     int       `json:"format"`
+	Props      []J       `json:"props"`
+	Required   []string  `json:"required"`
+	AddlHas    *bool     `json:"addlHas,omitempty"`
+	AddlSchema *int      `json:"addlSchema,omitempty"`
+	Flags      int       `json:"flags"`
+	HasDefault bool      `json:"hasDefault"`
+	AllOf      []c10Flat `json:"allOf,omitempty"` // nested allOf: the member contributes these, not its own attributes
 }
 
 func c10GenFlat(r *Rng) c10Flat {
@@ -497,6 +498,17 @@ func c10GenFlat(r *Rng) c10Flat {
 	return f
 }
 
+// c10GenMember: a flat member or, sometimes, one carrying a nested allOf (depth <= 2).
+func c10GenMember(r *Rng, depth int) c10Flat {
+	f := c10GenFlat(r)
+	if depth > 0 && r.Chance(25) {
+		for j, n := 0, 1+r.Intn(3); j < n; j++ {
+			f.AllOf = append(f.AllOf, c10GenMember(r, depth-1))
+		}
+	}
+	return f
+}
+
 func (f c10Flat) Schema() openapi3.Schema {
 	var s openapi3.Schema
 	if f.Type != nil {
@@ -524,6 +536,10 @@ func (f c10Flat) Schema() openapi3.Schema {
 	if f.HasDefault {
 		s.Default = 1
 	}
+	for _, sub := range f.AllOf {
+		ss := sub.Schema()
+		s.AllOf = append(s.AllOf, openapi3.NewSchemaRef("", &ss))
+	}
 	return s
 }
 
@@ -532,8 +548,20 @@ func c10Corr(ctx *Ctx, n int) error {
 		r := ctx.Rng.Fork()
 		k := 1 + r.Intn(4)
 		var ms []c10Flat
+		nested := false
 		for j := 0; j < k; j++ {
-			ms = append(ms, c10GenFlat(r))
+			m := c10GenMember(r, 2)
+			if len(m.AllOf) > 0 {
+				nested = true
+			}
+			ms = append(ms, m)
+		}
+		if nested && k == 1 {
+			ms = append(ms, c10GenFlat(r)) // a single member is not merged at all
+			k = 2
+		}
+		if nested {
+			ctx.Res.Count("corr:nested")
 		}
 		// the implementation: the fold of mergeSchemas over the member values
 		acc := ms[0].Schema()
